@@ -37,11 +37,12 @@ var vKeys = map[int]vKey{
 	4: {"id4", "chacha20-ietf-poly1305", "secret-one"}, // same cipher+secret as key 1
 	5: {"id5", "bogus-cipher-9000", "secret-five"},     // unusable cipher
 	6: {"id6", "aes-192-gcm", "secret-four"},
+	7: {"id7", "aes-256-gcm", "secret-one"}, // the secret of key 1 under another cipher: a different key
 }
 
 // cipher+secret classes -> representative key
-var vClassKey = map[int]int{1: 1, 2: 2, 3: 3, 4: 6}
-var vIDNum = map[string]int{"id1": 1, "id2": 2, "id3": 3, "id4": 4, "id5": 5, "id6": 6}
+var vClassKey = map[int]int{1: 1, 2: 2, 3: 3, 4: 6, 5: 7}
+var vIDNum = map[string]int{"id1": 1, "id2": 2, "id3": 3, "id4": 4, "id5": 5, "id6": 6, "id7": 7}
 
 type vUniverse struct{ ports []int }
 
@@ -347,7 +348,7 @@ func (h *vHarness) probe(m *vMetrics, tag string) {
 		addr := h.u.dialAddr(a)
 		// TCP
 		tcpListening := false
-		for cs := 1; cs <= 4; cs++ {
+		for cs := 1; cs <= len(vClassKey); cs++ {
 			k := vKeys[vClassKey[cs]]
 			ln, id, _, err := h.probeTCP(m, addr, vClientHello(k, "127.0.0.1:9", nil))
 			if err != nil {
@@ -367,7 +368,7 @@ func (h *vHarness) probe(m *vMetrics, tag string) {
 		// UDP: listening = the address cannot be bound by us
 		if vHeld("udp", addr) {
 			listening = append(listening, []interface{}{"udp", a})
-			for cs := 1; cs <= 4; cs++ {
+			for cs := 1; cs <= len(vClassKey); cs++ {
 				id, err := h.probeUDP(m, addr, vKeys[vClassKey[cs]])
 				if err != nil {
 					problems = append(problems, err.Error())
